@@ -54,16 +54,6 @@ def endsNl (t : List UInt8) (dflt : Bool) : Bool :=
   | some c => c == 10
   | none => dflt
 
-/-- all tokens of `inp`, as (rule, text); stops at the end of input or when jammed -/
-def absLex {σ : Type} (D : DFA σ) : Nat → Bool → List UInt8 → List (Nat × List UInt8)
-  | 0, _, _ => []
-  | _, _, [] => []
-  | fuel + 1, bol, inp =>
-    match absTok D bol inp with
-    | some (l, r) =>
-      if l = 0 then [] else
-      (r, inp.take l) :: absLex D fuel (endsNl (inp.take l) bol) (inp.drop l)
-    | none => []
 
 /-! ### the buffer machine -/
 
@@ -94,6 +84,7 @@ structure BState where
   buf : List UInt8 := []      -- the `yy_n_chars` valid characters of `yy_ch_buf`
   size : Nat                  -- `yy_buf_size`
   tok : Nat := 0              -- `yytext_ptr` (offset into `buf`)
+  pre : Nat := 0              -- `yy_more_len`: characters of `yytext` carried over by yymore()
   src : List UInt8            -- what the input routine has not delivered yet
   calls : Nat := 0            -- number of YY_INPUT calls so far
   eofPending : Bool := false  -- YY_BUFFER_EOF_PENDING
@@ -134,37 +125,75 @@ def scan {σ : Type} (D : DFA σ) (rd : Reader) : Nat → BState → Nat → σ 
   | 0, _, _, _, _ => .fuel
   | fuel + 1, st, p, s, la =>
     if D.dead s then .tok st la else
-    match st.buf[st.tok + p]? with
+    match st.buf[st.tok + st.pre + p]? with
     | some c =>
       match D.step s c with
       | none => .tok st la
       | some s' => scan D rd fuel st (p + 1) s' (upd D la (p + 1) s')
     | none =>
-      -- the end of the buffer: try to get more
-      let (st', k) := refill rd st p
+      -- the end of the buffer: try to get more (the yymore() prefix moves along with the token)
+      let (st', k) := refill rd st (st.pre + p)
       if k = 0 then
-        if p = 0 then .eof st'
+        if p = 0 then .eof st'                            -- number_to_move == YY_MORE_ADJ
         else .tok { st' with eofPending := true } la      -- EOB_ACT_LAST_MATCH
       else
         -- EOB_ACT_CONTINUE_SCAN: the state is computed again from the moved text
-        match prevState D st.atBol (st'.buf.take p) with
+        match prevState D st.atBol ((st'.buf.drop st.pre).take p) with
         | some s' => scan D rd fuel st' p s' la
         | none => .tok st' la
+
+/-- what an action does to the input (the part the buffer level sees) -/
+inductive Act
+  | plain                      -- nothing
+  | less (n : Nat)             -- yyless(n): keep the first n characters of yytext
+  | more                       -- yymore()
+  | lessMore (n : Nat)         -- yyless(n) then yymore()
+deriving Repr, DecidableEq, Inhabited
+
+/-- the script: what the action does given a script position, the rule and yytext, and the
+    script position after it (the default rule's ECHO does not advance it) -/
+abbrev Script := Nat → Nat → List UInt8 → Act × Nat
+
+/-- effect of an action on (token start, prefix length), the token having `len` characters of
+    which `pre` are the carried prefix -/
+def Act.apply (a : Act) (tok _pre len : Nat) : Nat × Nat :=
+  match a with
+  | .plain => (tok + len, 0)
+  | .less n => (tok + min n len, 0)
+  | .more => (tok, len)
+  | .lessMore n => (tok, min n len)
+
+/-- reference: all tokens of `inp` under the script, as (rule, yytext); `pre` characters at the
+    front of `inp` are the prefix carried over by yymore().  Stops at the end of input or when
+    jammed.  No buffer, no reads: just lists. -/
+def absLex {σ : Type} (D : DFA σ) (act : Script) : Nat → Nat → Bool → Nat → List UInt8 → List (Nat × List UInt8)
+  | 0, _, _, _, _ => []
+  | fuel + 1, k, bol, pre, inp =>
+    if inp.length ≤ pre then [] else
+    match absTok D bol (inp.drop pre) with
+    | some (l, r) =>
+      if l = 0 then [] else
+      let text := inp.take (pre + l)
+      let (d, pre') := (act k r text).1.apply 0 pre (pre + l)
+      (r, text) :: absLex D act fuel (act k r text).2 (endsNl text bol) pre' (inp.drop d)
+    | none => []
 
 /-- enough fuel for one token: every character is looked at once, every refill that returns
     something is followed by a look -/
 def tokFuel (st : BState) : Nat := 2 * ((st.buf.length - st.tok) + st.src.length) + 4
 
-/-- `yylex` called until the end of input (actions do nothing) -/
-def run {σ : Type} (D : DFA σ) (rd : Reader) : Nat → BState → BState
-  | 0, st => st
-  | fuel + 1, st =>
+/-- `yylex` called until the end of input; `act k rule text` is what the k-th action does -/
+def run {σ : Type} (D : DFA σ) (rd : Reader) (act : Script) : Nat → Nat → BState → BState
+  | 0, _, st => st
+  | fuel + 1, k, st =>
     match scan D rd (tokFuel st) st 0 (D.start st.atBol) none with
     | .tok st' (some (l, r)) =>
       if l = 0 then { st' with out := st'.out.push .jammed } else
-      let text := (st'.buf.drop st'.tok).take l
-      run D rd fuel { st' with tok := st'.tok + l, atBol := endsNl text st'.atBol,
-                               out := st'.out.push (.tok r text) }
+      let text := (st'.buf.drop st'.tok).take (st'.pre + l)          -- yytext, prefix included
+      let (tok', pre') := (act k r text).1.apply st'.tok st'.pre (st'.pre + l)
+      let k' := (act k r text).2
+      run D rd act fuel k' { st' with tok := tok', pre := pre', atBol := endsNl text st'.atBol,
+                                           out := st'.out.push (.tok r text) }
     | .tok st' none => { st' with out := st'.out.push .jammed }
     | .eof st' => st'
     | .fuel => st
